@@ -190,11 +190,29 @@ impl PredicatePushdown {
                 let input_schema = node.input.schema();
                 let input_cols = self.collect_columns(&input_schema);
 
-                // Check if predicates can be pushed (all referenced columns exist in input)
+                // A predicate may sink below the projection only if every column it
+                // reads is PASSED THROUGH unchanged: the projection's expression for
+                // that output is the same-named input column. A name that also exists
+                // in the input but is redefined here (`c1 + 4 AS c1`) is a different
+                // column below the projection.
+                let passes_through = |c: &Column| -> bool {
+                    let Some((idx, _)) = node.schema.resolve_column(c) else {
+                        return false;
+                    };
+                    let mut e = match node.exprs.get(idx) {
+                        Some(e) => e,
+                        None => return false,
+                    };
+                    while let Expr::Alias { expr, .. } = e {
+                        e = expr;
+                    }
+                    matches!(e, Expr::Column(ic) if ic.name == c.name)
+                };
                 let (pushable, remaining): (Vec<Expr>, Vec<Expr>) =
                     predicates.into_iter().partition(|p| {
                         let pred_cols = self.extract_columns(p);
                         self.columns_subset(&pred_cols, &input_cols)
+                            && pred_cols.iter().all(|c| passes_through(c))
                     });
 
                 let result = self.pushdown(&node.input, pushable)?;
@@ -468,13 +486,25 @@ impl PredicatePushdown {
             }
 
             LogicalPlan::Limit(node) => {
-                // Push through limit
-                let input = self.pushdown(&node.input, predicates)?;
-                Ok(LogicalPlan::Limit(crate::planner::LimitNode {
+                // A predicate must NOT sink below a LIMIT / OFFSET: filtering
+                // first changes which rows the limit keeps
+                // (sigma_p(top-k R) != top-k(sigma_p R)). Keep it above; still
+                // optimize the input on its own.
+                let input = self.pushdown(&node.input, vec![])?;
+                let limit = LogicalPlan::Limit(crate::planner::LimitNode {
                     input: Arc::new(input),
                     skip: node.skip,
                     fetch: node.fetch,
-                }))
+                });
+                if predicates.is_empty() {
+                    Ok(limit)
+                } else {
+                    let combined = self.combine_predicates(predicates);
+                    Ok(LogicalPlan::Filter(FilterNode {
+                        input: Arc::new(limit),
+                        predicate: combined,
+                    }))
+                }
             }
 
             LogicalPlan::Distinct(node) => {
